@@ -302,6 +302,12 @@ func main() {
 					if st, ok := t.(*ast.StarExpr); ok {
 						t = st.X
 					}
+					switch x := t.(type) { // generic receivers: Client[Req, Res]
+					case *ast.IndexExpr:
+						t = x.X
+					case *ast.IndexListExpr:
+						t = x.X
+					}
 					if id, ok := t.(*ast.Ident); ok {
 						name = id.Name + "." + name
 					}
@@ -754,6 +760,7 @@ func main() {
 	duplexFacts(e, p)
 	plumbingFacts(e, p)
 	timeoutFacts(e, p)
+	structFacts(e, p)
 
 	if len(e.errs) > 0 {
 		for _, m := range e.errs {
